@@ -516,6 +516,17 @@ func (p *Prog) resolveDynCalls(t *Term) *Term {
 		}
 		v := p.valueSummary(g)
 		if v == nil {
+			// a declared function reached through a function value: its own call
+			if g.Decl != nil && g.Obj != nil && len(nt.A[0].A) == 1 {
+				direct := &Term{Op: g.Name, Typ: nt.Typ}
+				for _, a := range nt.A[1:] {
+					if a.IsAt("ctx") || a.IsAt("K") {
+						continue
+					}
+					direct.A = append(direct.A, a)
+				}
+				return direct
+			}
 			return nt
 		}
 		m := map[string]*Term{}
